@@ -126,4 +126,4 @@ def run(ck):
     return vlib.finish_with_broken(ck, trusted=vlib.TRUSTED_COMMON)
 
 def replay(ck, path):
-    print(open(path).read()); return 0
+    return vlib.replay_generic(ck, path)
